@@ -18,7 +18,17 @@ NULL = -9
 CLASSES = ["int", "float", "str", "ts"]
 
 
+def pconc(pkind, v):
+    """concrete partition value / partition constant for abstract integer v (see FiltersMC: PartsDoubled)"""
+    if pkind == "phalf":          # partition values are the even abstract values halved; odd constants fall between two of them
+        return v // 2 if v % 2 == 0 else v / 2.0
+    if pkind in ("pstr", "pobj"):
+        return "k%d" % v          # "k-1" < "k0" < "k1" < "k2" < "k3": text order = abstract order
+    return v
+
+
 def conc(cls, k):
+    cls = cls.partition("|")[0]
     """abstract value k in -1..MaxV+1 -> concrete constant / cell of the class (orders preserved)"""
     import numpy as np
     if cls == "int":
@@ -35,6 +45,7 @@ def conc(cls, k):
 
 def column(pd, cls, cells):
     import numpy as np
+    cls = cls.partition("|")[0]
     if cls == "int":
         return pd.array([pd.NA if c == NULL else conc(cls, c) for c in cells], dtype="Int64")
     if cls == "float":
@@ -80,8 +91,12 @@ def build_datasets(fp, pd, base, pool, cls):
             df = pd.DataFrame({"rid": pd.Series(rid, dtype="int64"), "x": column(pd, cls, xs), "y": column(pd, "int", ys)})
             path = os.path.join(base, "ds-%s-%d-%s-%d" % (cls, stats, only, part))
             stats_arg = stats if only == "both" else [only]
+            pkind = cls.partition("|")[2]
             if part:
-                df["p"] = pd.Series(ps, dtype="int64")
+                if pkind in ("pstr", "pobj"):
+                    df["p"] = pd.Series([pconc(pkind, v) for v in ps], dtype=("str" if pkind == "pstr" else object))
+                else:
+                    df["p"] = pd.Series([pconc(pkind, v) for v in ps], dtype="int64")
                 fp.write(path, df, file_scheme="hive", partition_on=["p"], row_group_offsets=offs, stats=stats_arg,
                          write_index=False)
             else:
@@ -97,7 +112,7 @@ def real_filters(prog, cls):
     def atom(a):
         ccls = "int" if a["col"] in ("y",) else cls
         if a["col"] == "p":
-            vals = list(a["c"])
+            vals = [pconc(cls.partition("|")[2], c) for c in a["c"]]
         else:
             vals = [conc(ccls, k) for k in a["c"]]
         v = vals if a["op"] in ("in", "not in") else vals[0]
@@ -119,7 +134,7 @@ def eval_job(args):
             pg = case["prog"]
             if mentions_p(pg) and not dsinfo["part"]:
                 continue
-            if cls == "str" and any(-1 in a["c"] for g in pg["groups"] for a in g if a["col"] == "x"):
+            if cls.partition("|")[0] == "str" and any(-1 in a["c"] for g in pg["groups"] for a in g if a["col"] == "x"):
                 continue      # no text sorts below the empty string that stands for value 0
             filters = real_filters(pg, cls)
             sig = {"ops": sorted({a["op"] for g in pg["groups"] for a in g}), "flat": pg["flat"],
@@ -153,7 +168,7 @@ def eval_job(args):
                     break
             mk = [j for j, i in enumerate(idx) if case["keep"][i]]
             mkb = [j for j, i in enumerate(idx) if case["keepb"][i]]
-            if mk != list(kept) and mkb != list(kept) and cls != "str" and len(out["drift"]) < 5:
+            if mk != list(kept) and mkb != list(kept) and cls.partition("|")[0] != "str" and len(out["drift"]) < 5:
                 out["drift"].append({"what": "pruning differs from the mechanism model", "prog": pg,
                                      "real": list(kept)[:10], "model": mk[:10],
                                      "dataset": {k: dsinfo[k] for k in ("stats", "only", "part") if k in dsinfo}})
